@@ -286,7 +286,7 @@ func c13Jobs(quick bool) []c13Job {
 	n := 0
 	input := "<all>" + strings.Join(c02Records[:6], "") + "</all>"
 	c02Enumerate(quick, func(label string, decls gd) bool {
-		if !strings.HasPrefix(label, "C:") {
+		if !strings.HasPrefix(label, "C:") && !strings.HasPrefix(label, "G:") {
 			return true
 		}
 		n++
